@@ -68,6 +68,7 @@ def check(rep: Report, ctx: Ctx) -> None:
     r116(rep, ctx)
     r122(rep, ctx)
     r124(rep, ctx)
+    r125(rep, ctx)
 
 
 def r18(rep: Report, ctx: Ctx) -> None:
@@ -938,3 +939,12 @@ def r124(rep: Report, ctx: Ctx) -> None:
         o.rule = "R1.24"
         rep.obligations.append(o)
     rep.funcs_seen |= sub.funcs_seen
+
+
+def r125(rep: Report, ctx: Ctx) -> None:
+    """(shared with C05 R5.21)"""
+    from .c05 import main_walk_loop
+    rep.rule("R1.25", "the main loop of the walk dispatches on (event / "
+             "logic node, inside a block, successor, break point) as pinned "
+             "(= C05 R5.21)", 10)
+    main_walk_loop(rep, ctx, "R1.25")
